@@ -21,6 +21,7 @@ Definition heap_sigs (s : state3) := map_to_list (sigs s).
 Definition refs_list (m : gmap handle (gset handle)) : list (handle * list handle) :=
   (λ '(h, x), (h, elements x)) <$> map_to_list m.
 Definition builder_list (s : state3) := map_to_list (bus_builder s).
+Definition attr_list (s : state3) := map_to_list (attrs s).
 
 (* layer 2 *)
 From Acme.C04 Require Export Reg.
